@@ -150,14 +150,17 @@ def appendAll (maxlen : Option Nat) (fs : List PFrame) : List PFrame :=
   | none => fs
   | some m => fs.take m
 
+/-- the System `order_function.calculate(phasepoint)` sees inside `Path.reverse` -/
+def recomputeSys (rv : ReverseVariant) (f : PFrame) : Sys :=
+  match rv with
+  | .asIs => f.sys
+  | .repaired => Frame.physical ⟨f.sys, f.velRev⟩
+
 /-- `order_function.calculate(phasepoint)` inside `Path.reverse`: the frame's own arrays, whatever its
     `vel_rev` flag says (that is the code as it is; `ReverseVariant.repaired` evaluates on the physical
     velocities).  IndexError propagates out of `Path.reverse`. -/
 def recomputeFrame (rv : ReverseVariant) (var : Variant) (op : OP) (f : PFrame) : Except Err PFrame :=
-  let s := match rv with
-    | .asIs => f.sys
-    | .repaired => (Frame.physical ⟨f.sys, f.velRev⟩)
-  match value var op s with
+  match value var op (recomputeSys rv f) with
   | .ok l => .ok { f with order := .recomputed l }
   | .error .nan => .ok { f with order := .recomputedNan }
   | .error .index => .error .index
